@@ -201,6 +201,38 @@ def clear_agree(ctx, rr):
                 rr.fail(ctx.finding('R-CLEAR-AGREE', u, g.node, 'rules given to clear() are not written into the emptied trie'))
             if first_idx(r, lambda e: e is g) < max(first_idx(r, lambda e, c=c: e is c) for c in ctors):
                 rr.fail(ctx.finding('R-CLEAR-AGREE', u, g.node, 'rules are registered before the structures were rebuilt'))
+    # the old handles are closed (flushed) before the files are truncated: a buffered write flushed afterwards lands in the new file
+    for r in rows:
+        opens = r.calls('open')
+        closes = r.calls('close')
+        if not opens:
+            continue
+        i_open = min(first_idx(r, lambda e, c=c: e is c) for c in opens)
+        okc = bool(closes) and min(first_idx(r, lambda e, c=c: e is c) for c in closes) < i_open
+        if 'close-first' not in seen:
+            rr.ob(ctx.where(u), 'file: the old handles are closed before the files are reopened truncated', ok=okc)
+            seen.add('close-first')
+        if not okc:
+            rr.fail(ctx.finding('R-CLEAR-AGREE', u, opens[0].node, 'clear() truncates the store files before (or without) closing the old handles: blocks still buffered in the old '
+                                'handles are flushed into the emptied files, so the cleared index shows phantom pages and links', stmt='clear close-before-open'))
+    # the rule patterns are compiled the same way wherever they are installed (constructor, clear, rule installation)
+    comp = {}
+    for name2, fu in P.require_class('Traph').items():
+        for c in P.own(fu, ast.Call):
+            if ast.unparse(c.func) == 're.compile':
+                flags = tuple(ast.unparse(a) for a in c.args[1:]) + tuple('%s=%s' % (k.arg, ast.unparse(k.value)) for k in c.keywords)
+                comp.setdefault(flags, []).append((fu, c))
+    if not comp:
+        raise AnalysisError('R-CLEAR-AGREE: no re.compile call found in Traph')
+    major = max(comp.items(), key=lambda kv: len(kv[1]))[0]
+    okf = len(comp) == 1
+    rr.ob(ctx.where(u), 'creation-rule patterns are compiled with the same flags %s at all %d sites' % (list(major), sum(len(v) for v in comp.values())), ok=okf)
+    if not okf:
+        for flags, sites in comp.items():
+            if flags != major:
+                for fu, c in sites:
+                    rr.fail(ctx.finding('R-CLEAR-AGREE', fu, c, '%s compiles a creation rule with flags %s while the other sites use %s: the same rule matches differently depending on '
+                                        'whether it was installed by the constructor, by clear() or later' % (fu.qual, list(flags), list(major))))
     # optional rule arguments of clear() are told apart from "not given" by None-ness: b"" and {} are legitimate values
     for prm in u.call_params:
         tr = any(('truthy:' + prm) in r.val for r in rows)
@@ -363,6 +395,54 @@ def bst_agree(ctx, rr):
             made = [e for e in r.calls('node') if any(a.startswith('stem=') for a in e.args)]
             if not made or made[0].args != ['stem=' + Q]:
                 rr.fail(ctx.finding('R-BST-AGREE', u, sets[0].node, 'the sibling that is attached does not carry the searched stem'))
+    # descent step of the two read-only walks: after a stem is matched and it is not the last one, a node without child means
+    # "not stored" (return), otherwise the walk moves to the child; after the last stem the node itself is the answer
+    n_desc = 0
+    for qual in ('LRUTrie.lru_node', 'LRUTrie.follow_lru'):
+        u = P.unit(qual)
+        fors = [f for f in P.own(u, ast.For) if any(isinstance(x, ast.While) for x in ast.walk(f))
+                and isinstance(f.iter, ast.Call) and isinstance(f.iter.func, ast.Name) and f.iter.func.id in ('range', 'enumerate')]
+        if len(fors) != 1:
+            raise AnalysisError('R-BST-AGREE: stem loop of %s not recognised' % qual)
+        lp = fors[0]
+        if isinstance(lp.target, ast.Name):
+            iv = lp.target.id
+        elif isinstance(lp.target, ast.Tuple) and lp.target.elts and isinstance(lp.target.elts[0], ast.Name):
+            iv = lp.target.elts[0].id
+        else:
+            raise AnalysisError('R-BST-AGREE: index of the stem loop of %s not recognised' % qual)
+        rows = tables(ctx, u, stmts=lp.body, iters=1, keep=lambda n, c: n in ('has_child', 'read_child', 'read_left', 'read_right'))
+        bad = []
+        for r in rows:
+            if r.calls(('read_left', 'read_right')):
+                continue
+            matched = [v for k, v in r.val.items() if k.startswith('ORD:') and v == 'EQ'] or [v for k, v in r.val.items() if k.startswith('EQ:') and v is True]
+            if not matched:
+                continue
+            n_desc += 1
+            nl = None
+            for key in r.lin:
+                names = dict(key)
+                if iv in names and len(names) == 2:
+                    other = [k_ for k_ in names if k_ != iv][0]
+                    nl = r.lin_known({iv: 1, other: -1}, '<=', -2)
+            hc = [v for k, v in r.val.items() if base(k).endswith('.has_child()')]
+            rc = r.calls('read_child')
+            if nl is True:
+                if not hc:
+                    bad.append((r, 'the walk goes on to the next stem without asking whether the matched node has a child'))
+                elif hc[-1] and not rc:
+                    bad.append((r, 'the matched node has a child but the walk does not move to it'))
+                elif not hc[-1] and (rc or r.outcome != 'return'):
+                    bad.append((r, 'the matched node has no child and stems remain, but the walk does not stop as "not stored": the remaining stems are compared against the '
+                                   'same node again, so an LRU that was never written is reported as located'))
+            elif rc:
+                bad.append((r, 'the walk moves to the child although the last stem was matched (or without establishing that stems remain)'))
+        rr.ob(ctx.where(u, lp), 'descent step of %s: stems remain and no child -> not stored; stems remain and child -> move down; last stem -> stay (%d rows)' % (qual, len(rows)), ok=not bad)
+        for r, msg in bad:
+            rr.fail(ctx.finding('R-BST-AGREE', u, lp, '%s: %s' % (qual, msg), detail={'row': r.show()[:400]}, stmt='%s descent: %s' % (qual, msg[:50])))
+    if n_desc < 4:
+        raise AnalysisError('R-BST-AGREE: descent rows of the read-only walks not found')
     if n_attach < 2:
         raise AnalysisError('R-BST-AGREE: attach side of the insert not found (expected set_left and set_right rows)')
     rr.info.update({'search_loops': sigs, 'attach_rows': n_attach})
